@@ -77,7 +77,18 @@ func runCase(phase string, i int) worker.Result {
 			nodes = c.G.Reach(c.Root)
 		}
 		op := []string{"cb.PreCopy", "cb.PostCopy", "cb.OnCopySkipped", "cb.OnMounted", "cb.MountFrom"}[rng.IntN(5)]
-		injected = &copymon.Fault{Point: fmt.Sprintf("%s:%d#0", op, nodes[rng.IntN(len(nodes))]), Kind: "error"}
+		target := nodes[rng.IntN(len(nodes))]
+		if ds := copymon.Diamonds(c.G, nodes); len(ds) > 0 && i%2 == 0 {
+			// a callback fails on a node shared by two parents while a sibling under its owner is
+			// slow: the other parent must not be released (its PostCopy would precede the failed
+			// successor's terminal notification, and its push would precede the successor)
+			d := ds[rng.IntN(len(ds))]
+			target = d.A
+			op = []string{"cb.PreCopy", "cb.PostCopy"}[rng.IntN(2)]
+			e.Mon.SlowNode = map[int]time.Duration{d.B: time.Duration(5+rng.IntN(15)) * time.Millisecond}
+			res.Count("cberr_diamond_cases", 1)
+		}
+		injected = &copymon.Fault{Point: fmt.Sprintf("%s:%d#0", op, target), Kind: "error"}
 		e.Mon.Faults = append(e.Mon.Faults, injected)
 	}
 	presentBefore := copymon.Present(ctx, e.Dst.Target, c.G)
